@@ -60,7 +60,7 @@ def run_mutants(prop, only=None, keep=False):
                            stdout=subprocess.PIPE, stderr=subprocess.STDOUT, text=True)
         viol = [l for l in r.stdout.splitlines() if l.startswith("VIOLATION") or l.strip().startswith("rule ")]
         hit_rules = sorted({l.strip().split()[1] for l in r.stdout.splitlines() if l.strip().startswith("rule ")})
-        fatal = "FATAL" in r.stdout
+        fatal = any(l.startswith("FATAL:") for l in r.stdout.splitlines())
         exp = m.get("expect_rules")
         if fatal:
             status = "BUILD-FAILED"
@@ -93,8 +93,8 @@ def run_patch(prop, patch, keep=False):
     env["VERIF_OUT"] = out
     r = subprocess.run([os.path.join(VERIF, "bin", "check"), prop, "--tier", "quick"], env=env, cwd=VERIF,
                        stdout=subprocess.PIPE, stderr=subprocess.STDOUT, text=True)
-    lines = [l for l in r.stdout.splitlines() if l.startswith("VIOLATION") or l.strip().startswith("rule ") or "FATAL" in l]
-    status = "BUILD-FAILED" if "FATAL" in r.stdout else ("CAUGHT" if r.returncode == 1 else "MISSED")
+    lines = [l for l in r.stdout.splitlines() if l.startswith("VIOLATION") or l.strip().startswith("rule ") or l.startswith("FATAL:")]
+    status = "BUILD-FAILED" if any(l.startswith("FATAL:") for l in r.stdout.splitlines()) else ("CAUGHT" if r.returncode == 1 else "MISSED")
     if not keep:
         shutil.rmtree(base, ignore_errors=True)
     return {"status": status, "output": lines[:8]}
